@@ -9,7 +9,7 @@ BOUNDS = {
     "quick": "transforms on skeletons [1,1], [1,0] (and [[1]] for depth-1 forms) with symbolic authoritative shape entries (coords < S_i <= 4: ranks declared 'U' are iterated over their whole shape), and with estimated shapes; "
              "leaf default 9; formats over {C,U}^d enumerated; mutable both ways: rank ids, authoritative shape re-arrangement, default, formats, mutability, coordinates inside "
              "shape and active range, iterActive == iterOccupancy; lazy results (& | ^ - <<, project, prune, intersection, union, coiter*) carry rank id / active range; "
-             "an unowned fiber's attributes are replaced by the rank's after Tensor.fromFiber / setRoot",
+             "an unowned fiber's attributes are replaced by the rank's after Tensor.fromFiber / setRoot; split-then-flatten(absolute), splits selected by rank id (alone and together with a different depth), swizzles that leave a suffix of ranks in place with a 'U' trailing rank, three-rank rotations of a 1x2x3 box",
     "thorough": "adds [2,2], [0,1], all split kinds with relative coordinates and halos, levels=2 flatten/unflatten on depth 3, 2x2x2 swizzles",
 }
 OUTSIDE = "names and colours beyond the '+split' style suffixes; tuple-shaped defaults"
